@@ -237,11 +237,12 @@ func (t *Target) WaitUntilHealthy(timeout time.Duration) bool {
 // HealthCheckConsumer
 
 func (t *Target) HealthCheckCompleted(success bool) {
-	previousState := t.state
-	newState := t.state
+	var previousState, newState TargetState
 	becameHealthy := false
 
 	t.withInflightLock(func() {
+		previousState = t.state
+
 		switch success {
 		case true:
 			switch t.state {
